@@ -47,7 +47,7 @@ func pinnedList(t *testing.T, w *wal.WAL, what, from string, max int, visible []
 	o := &listObs{what: what, from: from, max: max, visible: visible}
 	hx.Journal(map[string]interface{}{"pinned": what, "from": from, "max": max})
 	err, hung, panicked := hx.Guard(30*time.Second, func() error {
-		o.got, o.next, o.err = w.ListEntries(ctx, from, max)
+		list(w, o)
 		return nil
 	})
 	if hung || panicked {
@@ -59,11 +59,21 @@ func pinnedList(t *testing.T, w *wal.WAL, what, from string, max int, visible []
 	return o
 }
 
-// DESIGN §5 row 23: the shortest failing history on the unchanged tree
-func TestRegressOneAdd(t *testing.T) {
-	if err := canary(); err != nil {
-		t.Fatalf("%v", err)
+// DESIGN §5 row 23: the shortest failing history on the unchanged tree (one append, one listing).
+// Pinned case of the finding that may be listed as known: while listed it is reported, otherwise it fails.
+func TestKnownListEntriesRead(t *testing.T) {
+	err := canary()
+	if err == nil {
+		return
 	}
+	what := "wal.ListEntries cannot read back what wal.Add wrote (token and payload lost; two entries kill the process): " + err.Error()
+	if hx.Listed(knownRead) {
+		stats.KnownFinding(knownRead, what)
+		t.Logf("KNOWN-FINDING: property=C19 %s", what)
+		return
+	}
+	stats.Violation(what)
+	t.Fatalf("%s", what)
 }
 
 // DESIGN §5 row 23: two appends then a listing killed the process
